@@ -680,6 +680,27 @@ def _snapshots_first(ctx, app):
                    cname)
         late = [d for d in db if any(
             d in C.reach_after(w, edge_ok=C.no_exc) for w in live)]
+        # a snapshot that could not be read is not skipped silently: a
+        # failure of the download escapes the snapshot reader (the loop is
+        # re-run by its caller; a reader that logs and carries on reports a
+        # complete trace with the rest of the history missing)
+        rd = cls.methods.get('_process_db_events')
+        if rd is not None:
+            rgraph = ctx.cfg(rd)
+            handled = []
+            for rnode, _c in K.nodes_calling(
+                    rgraph, lambda c: K.callee_text(c).endswith(
+                        'download_batch') or K.is_meth(c, 'get_children')):
+                for edge in rnode.succ:
+                    if edge.kind != 'exc':
+                        continue
+                    reach = K.cut_reach(rgraph, edge.dst, follow_exc=True)
+                    if any(n.kind == 'handler' for n in reach | {edge.dst}):
+                        handled.append(rnode)
+            ctx.ob('C18.5', rd, handled[0] if handled else None, not handled,
+                   '%s: a snapshot that cannot be read fails the read of the '
+                   'history (no handler around the downloads)' % cname,
+                   construct='%s snapshot read failure escapes' % cname)
         ctx.ob('C18.5', run, late[0] if late else db[0], not late,
                '%s.run reads the snapshots before it registers the live '
                'watch' % cname, construct='%s snapshots before live' % cname)
